@@ -1,0 +1,43 @@
+//go:build verif
+// +build verif
+
+package dkg
+
+import (
+	"context"
+
+	"github.com/DOSNetwork/core/log"
+	"github.com/DOSNetwork/core/p2p"
+	"github.com/DOSNetwork/core/suites"
+	"github.com/dedis/kyber"
+)
+
+// Verification hooks for the pipeline-termination property (build tag verif): thin exports
+// of the Grouping stage constructors and helpers, no logic of their own.
+
+func VerifPipesMergeErrors(sessionID string, cs ...chan error) chan error {
+	return mergeErrors(log.New("module", "dkg"), sessionID, cs...)
+}
+
+func VerifPipesFanOut(ctx context.Context, ch chan interface{}, size int) []chan interface{} {
+	return fanOut(ctx, ch, size)
+}
+
+func VerifPipesGenPub(ctx context.Context, suite suites.Suite, id []byte, groupIds [][]byte, sessionID string) (chan interface{}, chan kyber.Scalar, chan error) {
+	return genPub(ctx, log.New("module", "dkg"), suite, id, groupIds, sessionID)
+}
+
+func VerifPipesSendToMembers(ctx context.Context, msgc chan interface{}, p p2p.P2PInterface, groupIds [][]byte, sessionID string) chan error {
+	return sendToMembers(ctx, log.New("module", "dkg"), msgc, p, groupIds, sessionID)
+}
+
+// VerifPipesAskMembers is askMembers; bufToNode is the channel pdkg.Loop reads registrations from.
+func VerifPipesAskMembers(ctx context.Context, bufToNode chan interface{}, numOfResp, reqType int, sessionID string) chan []interface{} {
+	return askMembers(ctx, log.New("module", "dkg"), bufToNode, numOfResp, reqType, sessionID)
+}
+
+// VerifPipesBufToNode gives the registration channel of a pdkg built by NewPDKG.
+func VerifPipesBufToNode(d PDKGInterface) chan interface{} { return d.(*pdkg).bufToNode }
+
+// VerifPipesReportErr is reportErr.
+func VerifPipesReportErr(ctx context.Context, errc chan error, err error) { reportErr(ctx, errc, err) }
